@@ -24,6 +24,8 @@ func init() {
 }
 
 func runC08(c *core.Ctx) {
+	// the replay model treats CopyFile as "dst becomes an independent copy of src; src gone and dst present is success"
+	c07CopyFileTable(c, "C08.c")
 	c08plan(c)
 	c08v7(c)
 	c08open(c)
